@@ -171,8 +171,13 @@ impl Match {
         if name.is_empty() {
             return None;
         }
-        let pos = self.group_names.iter().position(|s| s.as_ref() == name)?;
-        self.captures[pos].clone()
+        // A name may be shared by groups in different alternatives; report the one that
+        // participated in the match.
+        self.group_names
+            .iter()
+            .zip(self.captures.iter())
+            .filter(|(s, _)| s.as_ref() == name)
+            .find_map(|(_, capture)| capture.clone())
     }
 
     /// Return an iterator over the named groups of a Match.
